@@ -846,10 +846,10 @@ xar_finish_entry(struct archive_write *a)
 		s = (size_t)xar->bytes_remaining;
 		if (s > a->null_length)
 			s = a->null_length;
+		/* xar_write_data() itself takes what it wrote off
+		 * bytes_remaining. */
 		w = xar_write_data(a, a->nulls, s);
-		if (w > 0)
-			xar->bytes_remaining -= w;
-		else
+		if (w <= 0)
 			return ((int)w);
 	}
 	file = xar->cur_file;
